@@ -2,7 +2,7 @@
 use super::histprop::HistProp;
 use crate::hist::{Act, Effect, Interp, Monitor, Obs, Step};
 use crate::ops::{CfgProfile, Weights};
-use crate::oracle::{flow, pos_ref, PosRef};
+use crate::oracle::{flow, pos_ref_m, PosRef};
 use crate::refmath::{pnl, S};
 use crate::run::{Outcome, Violation};
 use crate::world::{mul_div_floor, World};
@@ -34,7 +34,7 @@ impl Monitor for Mon {
             }
             _ => {
                 if let Some((v, t)) = act.subject() {
-                    self.pre_ref = pos_ref(&it.w, pre, v, t);
+                    self.pre_ref = pos_ref_m(&it.w, pre, v, t);
                 }
             }
         }
